@@ -361,7 +361,7 @@ def strategy(max_tasks=6):
             return {'prog': prog, 'outcomes': outc, 'input': {},
                     'sched': enginerun.gen_schedule(D, max_devs=3),
                     'salt': D.int(0, 20), 'plan': plan}
-        if D.bool(0.25):
+        if D.bool(0.35):
             prog, outc = gen_staggered(D, G)
         elif D.bool(0.6):
             prog, outc = G.gen_nested(D, F, max_tasks)
